@@ -58,7 +58,7 @@ impl Simulator for EnvSimDriver {
 
     fn runs(&self, thorough: bool) -> u64 {
         if thorough {
-            20_000_000
+            12_000_000
         } else {
             1_000_000
         }
